@@ -118,6 +118,17 @@ def tab_metric(y_true, y_pred, gid):
     return float(y_true[0])
 
 
+NS_CODE = 777.0      # table entry that makes the look-up metric return an array (a non-scalar cell)
+
+
+def frame_metric(y_true, y_pred, gid, gv, ov):
+    """look-up metric of one column of a multi-metric frame: a single group -> its `gv`, a whole stratum -> its `ov`"""
+    v = float(gv[0]) if len(set(np.asarray(gid).tolist())) == 1 else float(ov[0])
+    if v == NS_CODE:
+        return np.array([1.0, 2.0])
+    return v
+
+
 def documented(vs, o):
     """the documented aggregates of one stratum: vs = group values (NaN = empty group), o = overall"""
     mn, mx = x_min(vs), x_max(vs)
@@ -138,7 +149,10 @@ class CHECK(Check):
     pid = "C02"
     technique = ("Lean 4 theorems over a model of DisaggregatedResult.apply_grouping/difference/ratio on extended rationals "
                  "(NaN, +-inf) whose grouping functions and ratio_sub_one are lifted from the source + compiled-driver "
-                 "correspondence with MetricFrame.group_min/group_max/difference/ratio")
+                 "correspondence with MetricFrame.group_min/group_max/difference/ratio; the BODIES of apply_grouping/difference/"
+                 "ratio are symbolically executed by lifters/aggregate_gen.py into Generated/AggregateGen.lean (compositions of "
+                 "the pandas-level primitives of Model/AggregatePrim.lean) and proved equal to the model; multi-metric frames "
+                 "(Model/AggregateFrame.lean, row-major DataFrames) are proved column-wise equal to the single-metric model")
     level_text = ("Theorems (all tables, any number of strata/groups, NaN cells): group_min/max are attained lower/upper bounds "
                   "of the non-NaN groups; difference(between)=max-min; difference(to_overall)=max|v-o|; ratio(between)=min/max "
                   "(IEEE division); ratio(to_overall)=min ratio_sub_one(v/o) with ratio_sub_one r = min(r,1/r) for r>=0; "
@@ -146,7 +160,14 @@ class CHECK(Check):
                   "group values are negative (PROVED counter-witness: finding F8) ; ratio>=0 on non-negative tables; "
                   "between<=2*to_overall; to_overall<=between whenever overall lies between group min and max, and the "
                   "weighted-mean metrics' overall value does (partition lemma). Tie: real MetricFrame aggregates vs compiled "
-                  "Lean model on the implementation's own by_group/overall tables; independent Fraction oracle.")
+                  "Lean model on the implementation's own by_group/overall tables; independent Fraction oracle. "
+                  "Added: applyGroupingGen/differenceGen/ratioGen (lifted method bodies) = model for all tables; every aggregate "
+                  "of a multi-column frame = the single-metric aggregate of each column (any number of columns/strata; "
+                  "errors='raise' fails for every column iff a by_group cell is non-scalar; to_overall difference fails iff an "
+                  "overall cell is non-scalar; to_overall ratio iff any cell is); difference=0 iff all non-NaN groups equal "
+                  "(resp. equal the overall); ratio(between)=1 iff all equal and non-zero; single non-empty group; "
+                  "ratio(to_overall)>=ratio(between) for non-negative weighted-mean metrics (false without 'overall between the "
+                  "extremes': proved witness).")
     design_ref = "DESIGN.md section 4, C02"
     quick_cases = 1100
     thorough_cases = 20000
@@ -159,6 +180,10 @@ class CHECK(Check):
             "1..4 groups x 1..3 strata, 1..2 sensitive features (so empty intersections), all-equal groups, zero/negative/NaN "
             "overall. For every metric column all 12 aggregates (min,max x raise/coerce; difference,ratio x between_groups/"
             "to_overall x raise/coerce) are read. distinct = distinct (by_group, overall) tables; non-trivial = >= 2 groups. "
+            "(c) MULTI-METRIC frames given cell by cell through the public API (1..3 metric columns x 0..2 control features x "
+            "1..4 groups per stratum, NaN cells, all-NaN strata, 27% with non-scalar cells in by_group and/or overall of one "
+            "column): the whole frame goes through the driver op aggf.eval and all 12 aggregates are compared column by "
+            "column, including which calls raise. "
             "thorough: ALL tables over {0,1/2,1,-1,nan} with <= 4 groups x <= 2 strata and overall in {0,1/2,1,-1}")
     explanation = ("oracle = the documented formulas evaluated exactly (Fractions, IEEE rules for x/0) on the implementation's own "
                    "by_group/overall; tolerance 1e-12 relative; -0.0 is identified with 0.0. Known findings on the unchanged "
@@ -166,7 +191,12 @@ class CHECK(Check):
                    "ratio keeps a negative quotient r in (-1,0) instead of min(r,1/r)=1/r).")
     trusted = ("pandas skipna min/max, groupby(level=), index alignment of (by_group - overall) and unstack are modelled by "
                "per-stratum NaN-skipping folds (Aggregate.vals/strata/overallAt), checked by the correspondence only",
-               "float tables are passed to the Lean model as the exact rationals of the float64 values")
+               "float tables are passed to the Lean model as the exact rationals of the float64 values",
+               "pandas DataFrame semantics assumed by Model/AggregateFrame.lean: element-wise ops row by row, reductions column by "
+               "column, alignment on the control levels, an exception in one column aborts the call; object-dtype behaviour "
+               "(when a reduction over non-scalar cells raises) is an observed rule, compared only on frames where every "
+               "non-scalar by_group cell shares its (stratum, column) with another non-NaN cell and every stratum has >= 2 rows",
+               "lifters/aggregate_gen.py: symbolic execution of the three method bodies into the primitives of Model/AggregatePrim.lean")
     assumptions = ("metric values are finite or NaN (no +-inf cells, no -0.0)", "sample weights are positive")
 
     def __init__(self):
@@ -194,10 +224,43 @@ class CHECK(Check):
         return {"kind": "table", "ncf": ncf, "nsf": nsf, "groups": groups, "bare": rng.random() < 0.5,
                 "extra_ns": rng.random() < 0.08, "mode": mode}
 
+    def _frame_case(self, rng):
+        """a MULTI-METRIC frame (1..3 metric columns x 0..2 control features) given cell by cell: NaN cells,
+        all-NaN strata, and (20%) non-scalar cells in by_group and/or overall of one column"""
+        nsf = rng.choice([1, 1, 2])
+        ncf = rng.choice([0, 0, 1, 1, 2])
+        ncols = rng.choice([1, 2, 2, 3, 3])
+        strata = [()]
+        if ncf:
+            strata = sorted(set(tuple(rng.choice("kmq") for _ in range(ncf)) for _ in range(rng.choice([1, 2, 3]))))
+        ns_mode = rng.choice(["none"] * 8 + ["by", "ov", "both"])
+        ns_col = rng.randrange(ncols)
+        pools = [rng.choice([TABLE_VALUES, ["0", "1/2", "1", "2", "3/4", "nan", "1/4"], ["-1", "-3", "-1/2", "-2", "nan"],
+                             ["0", "0", "1", "-1", "nan"], [rng.choice(TABLE_VALUES)]]) for _ in range(ncols)]
+        groups = []
+        for c in strata:
+            ng = rng.choice([1, 2, 2, 3, 4]) if ns_mode == "none" else rng.choice([2, 2, 3, 4])
+            keys = set()
+            while len(keys) < ng:
+                keys.add(tuple(rng.choice("abcd") for _ in range(nsf)))
+            all_nan = rng.random() < 0.12 and ns_mode == "none"
+            ov = [rng.choice(pools[j] + ["0", "1", "-1", "nan"]) for j in range(ncols)]
+            if ns_mode in ("ov", "both") and rng.random() < 0.7:
+                ov[ns_col] = "ns"
+            for k in sorted(keys):
+                vals = ["nan" if (all_nan and rng.random() < 0.9) else rng.choice(pools[j]) for j in range(ncols)]
+                if ns_mode in ("by", "both") and rng.random() < 0.5:
+                    vals[ns_col] = "ns"
+                groups.append({"cf": list(c), "sf": list(k), "vals": vals, "ovals": ov, "rows": rng.choice([1, 1, 2])})
+        return {"kind": "frame", "ncf": ncf, "nsf": nsf, "ncols": ncols, "groups": groups, "bare": False, "mode": "ns=" + ns_mode}
+
     def generate(self, rng, tier):
         gen = self.c01.generate(rng, tier)
         while True:
-            if rng.random() < 0.5:
+            u = rng.random()
+            if u < 0.3:
+                yield self._frame_case(rng)
+            elif u < 0.62:
                 yield self._table_case(rng)
             else:
                 c = next(gen)
@@ -232,6 +295,17 @@ class CHECK(Check):
         for i in range(len(g)):
             if g[i]["rows"] > 1:
                 yield dict(case, groups=g[:i] + [dict(g[i], rows=1)] + g[i + 1:])
+        if case["kind"] == "frame":
+            if case["ncols"] > 1:
+                for j in range(case["ncols"]):
+                    yield dict(case, ncols=case["ncols"] - 1,
+                               groups=[dict(x, vals=x["vals"][:j] + x["vals"][j + 1:], ovals=x["ovals"][:j] + x["ovals"][j + 1:])
+                                       for x in g])
+            for i in range(len(g)):
+                for j, v in enumerate(g[i]["vals"]):
+                    if v == "ns":
+                        yield dict(case, groups=g[:i] + [dict(g[i], vals=g[i]["vals"][:j] + ["1"] + g[i]["vals"][j + 1:])] + g[i + 1:])
+            return
         if case["extra_ns"]:
             yield dict(case, extra_ns=False)
 
@@ -239,6 +313,8 @@ class CHECK(Check):
     def _names(self, case):
         if case["kind"] == "data":
             return self.c01._names(case)
+        if case["kind"] == "frame":
+            return [f"t{j}" for j in range(case["ncols"])]
         return ["metric"] if case["bare"] else (["t", "ns"] if case["extra_ns"] else ["t"])
 
     def _dims(self, case):
@@ -249,6 +325,8 @@ class CHECK(Check):
     def build(self, case):
         if case["kind"] == "data":
             return self.c01.build(case)
+        if case["kind"] == "frame":
+            return self.build_frame(case)
         from fairlearn.metrics import MetricFrame
         y, p, gid, sf, cf = [], [], [], [[] for _ in range(case["nsf"])], [[] for _ in range(case["ncf"])]
         fl = (lambda s: math.nan if s == "nan" else float(F(s)))
@@ -272,6 +350,31 @@ class CHECK(Check):
                 metrics["ns"] = mc.conf_mat
         return MetricFrame(metrics=metrics, y_true=y, y_pred=p, sensitive_features={f"s{j}": sf[j] for j in range(case["nsf"])},
                            sample_params=sp, **kw)
+
+    def build_frame(self, case):
+        from fairlearn.metrics import MetricFrame
+        fl = (lambda s: math.nan if s == "nan" else NS_CODE if s == "ns" else float(F(s)))
+        ncols = case["ncols"]
+        gid, sf, cf = [], [[] for _ in range(case["nsf"])], [[] for _ in range(case["ncf"])]
+        gv, ov = [[] for _ in range(ncols)], [[] for _ in range(ncols)]
+        for i, g in enumerate(case["groups"]):
+            for _ in range(g["rows"]):
+                gid.append(i)
+                for j in range(ncols):
+                    gv[j].append(fl(g["vals"][j]))
+                    ov[j].append(fl(g["ovals"][j]))
+                for j in range(case["nsf"]):
+                    sf[j].append(g["sf"][j])
+                for j in range(case["ncf"]):
+                    cf[j].append(g["cf"][j])
+        kw = {}
+        if case["ncf"]:
+            kw["control_features"] = {f"c{j}": cf[j] for j in range(case["ncf"])}
+        n = len(gid)
+        metrics = {f"t{j}": frame_metric for j in range(ncols)}
+        sp = {f"t{j}": {"gid": gid, "gv": gv[j], "ov": ov[j]} for j in range(ncols)}
+        return MetricFrame(metrics=metrics, y_true=[0] * n, y_pred=[0] * n,
+                           sensitive_features={f"s{j}": sf[j] for j in range(case["nsf"])}, sample_params=sp, **kw)
 
     def impl(self, case):
         mf = self.build(case)
@@ -328,6 +431,18 @@ class CHECK(Check):
                 return ",".join(x_tok(x_of(v)) for _, v in tab) if tab else "none"
             ls.append(f"agg.eval {ncf} {proto.b(others)} {keys(m['by_group'])} {cells(m['by_group'])} "
                       f"{keys(m['overall'])} {cells(m['overall'])}")
+        if case["kind"] == "frame":
+            # the whole frame in one op (row-major); every column carries the same index
+            ms = [o["metrics"][nm] for nm in names]
+
+            def fkeys(tab):
+                return ";".join(proto.strs(k) for k, _ in tab) if tab else "none"
+
+            def frows(which):
+                n = len(ms[0][which])
+                return ";".join(",".join(x_tok(x_of(m[which][i][1])) for m in ms) for i in range(n)) if n else "none"
+            ls.append(f"aggf.eval {ncf} {len(names)} {fkeys(ms[0]['by_group'])} {frows('by_group')} "
+                      f"{fkeys(ms[0]['overall'])} {frows('overall')}")
         return ls
 
     # ---------------------------------------------------------------- judging
@@ -356,6 +471,25 @@ class CHECK(Check):
                 vs = [("nan" if v == "ns" else v) for k, v in by if k[:ncf] == c]
                 doc[c] = documented(vs, ov.get(c, "nan") if ov.get(c, "nan") != "ns" else "nan")
                 doc[c]["_vs"] = vs
+            # ---------------- errors='coerce' on a frame with non-scalar cells: documented as "set to NaN", so the
+            # group_min / group_max / between_groups aggregates are the documented functions of the remaining cells
+            if frame_ns:
+                for key in NS_COMPARED:
+                    got = m["agg"][key]
+                    base = key.rsplit("/", 1)[0]
+                    if got and got[0] == "exc":
+                        probs.append(Problem("property", f"{nm}.{key} raised {got[1]} although errors='coerce' (non-scalar cells "
+                                             "are documented to be set to NaN)", "C02.coerce_skips_nonscalar"))
+                        continue
+                    gd = {tuple(k): v for k, v in got}
+                    if sorted(gd.keys()) != strata:
+                        probs.append(Problem("property", f"{nm}.{key}: strata {sorted(gd.keys())} expected {strata}", "C02.strata"))
+                        continue
+                    for c in strata:
+                        if not mc.same(gd[c], doc[c][base], TOL):
+                            probs.append(Problem("property", f"{nm}.{key}[{list(c)}] = {gd[c]}, documented value {x_tok(doc[c][base])} with "
+                                                 f"non-scalar cells as NaN (groups {[x_tok(v) for v in doc[c]['_vs']]})",
+                                                 "C02.coerce_skips_nonscalar"))
             # ---------------- the implementation against the documented functions (property)
             if not frame_ns:
                 for key in AGG_KEYS:
@@ -416,8 +550,16 @@ class CHECK(Check):
                             probs.append(Problem("property", f"{nm}[{list(c)}]: between_groups difference {db} > 2 x to_overall difference {do}", "C02.between_le_two_overall"))
                         if spec is not None and spec["tag"] in WMEAN_TAGS and do > db + TOL * max(1.0, abs(db)):
                             probs.append(Problem("property", f"{nm}[{list(c)}] ({spec['tag']}): to_overall difference {do} > between_groups difference {db}", "C02.overall_le_between_of_weighted_mean"))
-            # ---------------- the Lean model
-            if mo is not None:
+                    # non-negative weighted-mean metrics: ratio(to_overall) >= ratio(between_groups)  (theorem
+                    # C02.ratio_overall_ge_between_of_weighted_mean)
+                    rb, ro = val("ratio/between_groups/coerce", c), val("ratio/to_overall/coerce", c)
+                    if (spec is not None and spec["tag"] in WMEAN_TAGS and vs and all(not x_lt(v, F(0)) for v in vs)
+                            and rb is not None and ro is not None and not isinstance(rb, str) and not isinstance(ro, str)):
+                        if ro < rb - TOL:
+                            probs.append(Problem("property", f"{nm}[{list(c)}] ({spec['tag']}): to_overall ratio {ro} < between_groups ratio {rb} "
+                                                 f"on non-negative groups {[x_tok(v) for v in vs]}", "C02.ratio_overall_ge_between_of_weighted_mean"))
+            # ---------------- the Lean model (single-metric op; multi-metric frames are judged as a whole below)
+            if mo is not None and case["kind"] != "frame":
                 res = mo[j].split(" ")
                 if len(res) != 12:
                     probs.append(Problem("harness", f"driver output {mo[j][:200]!r}"))
@@ -453,7 +595,85 @@ class CHECK(Check):
                         gd = {tuple(k): v for k, v in got}
                         if list(gd.keys()) != list(md.keys()) or any(not mc.same(gd[c], md[c], TOL) for c in gd):
                             probs.append(Problem("correspondence", f"{nm}.{key}: impl {got} vs model {r}", "C02.model"))
+        if mo is not None and case["kind"] == "frame":
+            probs += self.judge_frame(case, o, mo, names, ncf, frame_ns)
         return probs
+
+    def judge_frame(self, case, o, mo, names, ncf, frame_ns):
+        """the frame op `aggf.eval` (whole multi-metric frame, exact error behaviour) against the implementation,
+        and against the single-metric op of every column wherever the column theorems of C02 apply"""
+        probs = []
+        ncols = len(names)
+        fres = mo[ncols].split(" ")
+        if len(fres) != 12:
+            return [Problem("harness", f"driver output {mo[ncols][:200]!r}")]
+        by_ns = any(v == "ns" for nm in names for _, v in o["metrics"][nm]["by_group"])
+        ov_ns = any(v == "ns" for nm in names for _, v in o["metrics"][nm]["overall"])
+        determined = self.ns_determined(o, names, ncf)
+        for key, r in zip(AGG_KEYS, fres):
+            base, e = key.rsplit("/", 1)
+            gots = [o["metrics"][nm]["agg"][key] for nm in names]
+            impl_exc = bool(gots[0]) and gots[0][0] == "exc"
+            if frame_ns and not determined and key not in NS_COMPARED:
+                continue    # a lone object cell: pandas returns the cell itself instead of comparing (see ns_determined)
+            # (i) model consistency: column j of the frame result = single-metric result (theorems frame_*_col)
+            if base in ("min", "max", "difference/between_groups", "ratio/between_groups"):
+                applies = (e == "coerce") or not ov_ns
+            elif base == "difference/to_overall":
+                applies = (not by_ns) or ov_ns
+            else:
+                applies = True
+            cols = None
+            if r != "err":
+                kt, rt = r.split("|")
+                fkeys = [tuple(k) for k in mc.parse_keys(kt)]
+                rows = [] if rt == "none" else [[mc.model_tok(c) for c in row.split(",")] for row in rt.split(";")]
+                cols = [dict(zip(fkeys, [row[j] for row in rows])) for j in range(ncols)]
+            if applies:
+                for j in range(ncols):
+                    rj = mo[j].split(" ")[AGG_KEYS.index(key)]
+                    if (rj == "err") != (r == "err"):
+                        probs.append(Problem("harness", f"{key}: frame model {r[:60]} vs column model {rj[:60]} (column {j})"))
+                    elif r != "err":
+                        kt, ct = rj.split("|")
+                        if dict(zip([tuple(k) for k in mc.parse_keys(kt)], mc.parse_cells(ct))) != cols[j]:
+                            probs.append(Problem("harness", f"{key}: frame model column {j} {cols[j]} vs column model {rj[:80]}"))
+            # (ii) the implementation
+            if r == "err":
+                if not impl_exc:
+                    if not frame_ns:
+                        probs.append(Problem("harness", f"{key}: frame model raises on an all-scalar frame"))
+                    else:
+                        probs.append(Problem("correspondence", f"{key}: frame model raises (non-scalar cells: by_group={by_ns}, "
+                                             f"overall={ov_ns}), impl returned {gots}", "C02.frame_errors"))
+                continue
+            if impl_exc:
+                probs.append(Problem("correspondence", f"{key}: impl raised {gots[0][1]} (non-scalar cells: by_group={by_ns}, "
+                                     f"overall={ov_ns}), frame model returned {r[:120]}", "C02.frame_errors"))
+                continue
+            for j, nm in enumerate(names):
+                gd = {tuple(k): v for k, v in gots[j]}
+                if list(gd.keys()) != list(cols[j].keys()) or any(not mc.same(gd[c], cols[j][c], TOL) for c in gd):
+                    probs.append(Problem("correspondence", f"{nm}.{key}: impl {gots[j]} vs column {j} of the frame model {cols[j]}",
+                                         "C02.frame_columnwise"))
+        return probs
+
+    @staticmethod
+    def ns_determined(o, names, ncf):
+        """pandas raises on an object column only when it has to COMPARE a non-scalar cell with another cell; the
+        min / max of a single object is that object.  The error behaviour of a frame with non-scalar cells is
+        therefore only compared with the model when every stratum has >= 2 by_group rows and every (stratum, column)
+        holding a non-scalar by_group cell holds a second non-NaN cell."""
+        for nm in names:
+            per = {}
+            for k, v in o["metrics"][nm]["by_group"]:
+                per.setdefault(tuple(k[:ncf]), []).append(v)
+            for vs in per.values():
+                if len(vs) < 2:
+                    return False
+                if any(v == "ns" for v in vs) and sum(1 for v in vs if v != "nan") < 2:
+                    return False
+        return True
 
     def known(self, case, problem, entries):
         """F8: between_groups ratio > 1 exactly when every (non-NaN) group value of the stratum is negative.
@@ -489,6 +709,8 @@ class CHECK(Check):
                 tags.append("nan_cell")
             if any(v == "ns" for v in vs):
                 tags.append("nonscalar")
+            if any(v == "ns" for _, v in m["overall"]):
+                tags.append("nonscalar_overall")
             if live and all(v < 0 for v in live):
                 tags.append("all_negative")
             if live and any(v < 0 for v in live) and any(v >= 0 for v in live):
@@ -511,7 +733,20 @@ class CHECK(Check):
                         if v == "nan" and k2.startswith("ratio"):
                             tags.append("nan_ratio")
             key = (key, tuple(map(str, m["by_group"])), tuple(map(str, m["overall"])))
-        if case["kind"] == "table":
+        if case["kind"] == "frame":
+            tags.append(f"ncols={case['ncols']}")
+            if "crash" not in o and any(v == "ns" for nm in self._names(case) for w in ("by_group", "overall")
+                                        for _, v in o["metrics"][nm][w]):
+                tags.append("frame:ns_errors_compared" if self.ns_determined(o, self._names(case), ncf) else "frame:ns_lone_cell")
+            tags.append("frame:" + case["mode"])
+            if any(all(v == "nan" for v in g["vals"]) for g in case["groups"]):
+                tags.append("frame:all_nan_row")
+            by_s = {}
+            for g in case["groups"]:
+                by_s.setdefault(tuple(g["cf"]), []).append(g)
+            if any(all(v == "nan" for g in gs for v in g["vals"]) for gs in by_s.values()):
+                tags.append("frame:all_nan_stratum")
+        elif case["kind"] == "table":
             tags.append("mode=" + case["mode"])
         else:
             for s in case["specs"]:
